@@ -449,6 +449,9 @@ func needsRepeat(st *harnessStat, v interp.Violation) int {
 			return 300 // free choices (map order / schedule) cannot be forced natively
 		}
 	}
+	if strings.Contains(v.Label, "no-address") {
+		return 3 // compared between consecutive native runs
+	}
 	return 1
 }
 
